@@ -16,7 +16,8 @@ theorem addHeaders_ftip (db : Db) (ids : List Nat) (s : Nat) : (db.addHeaders id
 theorem addHeaders_btip (db : Db) (ids : List Nat) (s : Nat) :
     (db.addHeaders ids s).btip = ids.getLast?.orElse (fun _ => db.btip) := rfl
 
-theorem width_pos (w : Which) : 0 < width w := by cases w <;> simp [width]
+theorem width_pos (w : Which) : 0 < width w := by
+  cases w <;> simp [width, Gen.Store.blockHeaderSize, Gen.Store.regularFilterHeaderSize]
 
 /-- a complete append to a clean file -/
 theorem appendAll_clean (xs ids : List Nat) (w : Nat) (hw : 0 < w) :
